@@ -20,7 +20,7 @@ RUNS = {"quick": 12000, "thorough": 200000}
 CHUNK = {"quick": 40, "thorough": 200}
 PROBES = ["header_straddles_chunk", "offset_0", "block_cut_by_eof", "key_00", "decoy_lower_priority_first_in_file",
           "xorencoded_B_mod4_nonzero", "all_keys_fallback_used", "custom_key_list", "expect_valueerror",
-          "two_blocks_same_key", "from_path", "from_file_nonzero_cursor", "tiny_chunk", "container_pe",
+          "two_blocks_same_key", "block_in_stub_raw_view_only", "raw_stub_block_under_higher_priority_key", "from_path", "from_file_nonzero_cursor", "tiny_chunk", "container_pe",
           "container_xorpe", "near_miss_filler", "block_in_last_7_bytes"]
 RULE = ("seeded plans: container in {raw, PE .data, XorEncoded PE} x 0-3 config blocks (settings lists of 1-40 records, "
         "XOR key any of 0x00-0xff) at offsets biased to 0, 1, m*B-7..m*B+1, EOF-4096, EOF-len, EOF-7 x filler kind "
@@ -159,8 +159,22 @@ def generate(rng, tier, index):
             if b == 0xFF:
                 stub[i] = 0xFE
         variant = rng.choice(["both", "both", "size", "marker"])
+        stub_block = None
+        if rng.random() < 0.4:
+            # a (tiny) configuration block inside the *stub*, i.e. visible in the raw view only: the decoded view has to be
+            # searched under every tried key before the raw view is (anchors: "XorEncoded view first, then raw")
+            k = rng.choice(tried + tried + [rng.getrandbits(8)])
+            sb = builder.xor1(builder.encode_settings([[1, "short", rng.choice([0, 8, 16])], [2, "short", rng.getrandbits(16)],
+                                                       [3, "int", rng.getrandbits(32)]], pad_to=None), k)
+            at = rng.randint(0, len(stub))
+            cand = bytes(stub[:at]) + sb + bytes(stub[at:])
+            if b"\xff\xff\xff" not in cand and b"\xff\xff" != cand[-2:] and cand[-1:] != b"\xff":
+                stub = bytearray(cand)
+                stub_block = {"key": k, "at": at}
         plan["xor"] = {"nonce": hx(bytes(rng.getrandbits(8) for _ in range(4))),
                        "stub": hx(bytes(stub) + (b"\xff\xff\xff" if variant != "size" else b"")), "variant": variant}
+        if stub_block:
+            plan["xor"]["stub_block"] = stub_block   # informational: the bytes are part of "stub"
     return plan
 
 
@@ -277,6 +291,14 @@ def execute(plan: dict) -> Result:
         res.probes["xorencoded_B_mod4_nonzero"] += 1
     if len(plan["blocks"]) > 1:
         res.nontrivial = True
+    if c == "xorpe" and plan["xor"].get("stub_block"):
+        res.probes["block_in_stub_raw_view_only"] += 1
+        res.nontrivial = True
+        if exp[0] == "block" and exp[1] == "decoded":
+            tr = call["xor_keys"] or DEFAULT_KEYS
+            sk = plan["xor"]["stub_block"]["key"]
+            if sk in tr and exp[3] in tr and tr.index(sk) < tr.index(exp[3]):
+                res.probes["raw_stub_block_under_higher_priority_key"] += 1
     if exp[0] == "none":
         res.probes["expect_valueerror"] += 1
         res.nontrivial = True
